@@ -536,3 +536,12 @@ Example C07_example_covered :
   option_map aRanges (snd (h_get_ack (fst (run newHandler ops)) rph_Enc1RTT 2000000 true)) = Some [(3, 3); (1, 1)].
 Proof. vm_compute. auto. Qed.
 Print Assumptions C07_example_covered.
+
+(** (a) in the stronger form: every number in a generated ACK frame was ACCEPTED in that space
+    (ReceivedPacket returned nil), not merely passed to ReceivedPacket (audit problem 6). *)
+Theorem C07_ack_sound_accepted : forall (ops : list op) lvl now only f,
+  let h := fst (run newHandler ops) in
+  snd (h_get_ack h lvl now only) = Some f ->
+  exists sp, sp_of lvl = Some sp /\ forall q, inR q (aRanges f) -> accepted (trace newHandler ops) sp q.
+Proof. exact ack_sound_accepted. Qed.
+Print Assumptions C07_ack_sound_accepted.
